@@ -397,27 +397,33 @@ def r02f(chk, rid='R02.f'):
 _BAL = {}
 
 
-def _balanced_exact(depth, n):
-    key = (depth, n)
+def _balanced_exact(depth, n, singles=('x', ';')):
+    key = (depth, n, singles)
     if key not in _BAL:
         if n == 0:
             _BAL[key] = [()]
         else:
             cur = []
-            for first in ('x', ';'):
-                cur += [(first,) + rest for rest in _balanced_exact(depth, n - 1)]
+            for first in singles:
+                cur += [(first,) + rest for rest in _balanced_exact(depth, n - 1, singles)]
             if depth > 0:
                 for o, c in (('(', ')'), ('[', ']'), ('{', '}'), ('f(', ')')):
                     for k in range(0, n - 1):
-                        for inner in _balanced_exact(depth - 1, k):
-                            for rest in _balanced_exact(depth, n - 2 - k):
+                        for inner in _balanced_exact(depth - 1, k, singles):
+                            for rest in _balanced_exact(depth, n - 2 - k, singles):
                                 cur.append((o,) + inner + (c,) + rest)
             _BAL[key] = cur
     return _BAL[key]
 
 
+# names and strings that contain bracket characters without being brackets (an escaped parenthesis in an
+# identifier, a brace in a string): the counters must go by the token, not by what its text looks like
+DECOYS = ('q\\(', '"}"')
+WITH_DECOYS = ('x', ';') + DECOYS
+
+
 def _tok(v):
-    return ('FUNCTION' if v == 'f(' else 'IDENT' if v == 'x' else 'CHAR', v, 1, 1)
+    return ('FUNCTION' if v == 'f(' else 'STRING' if v[:1] == '"' else 'IDENT' if v[:1].isalpha() else 'CHAR', v, 1, 1)
 
 
 def r04h(chk, rid='R04.h', thorough=False):
@@ -490,9 +496,50 @@ def _top_level_block(seq):
     return False
 
 
+def _r04i_job(args):
+    root, start, maxlen = args
+    from sa.absint import Evaluator, Raised, Record
+    from sa.core import Repo
+
+    repo = Repo(root)
+    m = repo.mod(UTIL)
+    fn = m.get('Base._tokensupto2')
+    me = Record(_tokenvalue=lambda tok, normalize=False: tok[1] if tok else None, _type=lambda tok: tok[0] if tok else None)
+    intr = {'Base': Record(_prods=Record(FUNCTION='FUNCTION'))}
+    rest = [_tok('x'), ('CHAR', '{', 1, 1), ('CHAR', '}', 1, 1)]
+    closing = {'(': ')', '[': ']', '{': '}', 'f(': ')'}
+    cases = 0
+    bad = []
+    for plen in range(0, maxlen + 1):
+        for prelude in _balanced_exact(2, plen, WITH_DECOYS):
+            if start in closing:
+                # the start token opens a bracket: the statement is that bracket, closed, then the rest of the prelude rules apply
+                bodies = [(start,) + prelude + (closing[start],)]
+                ends = [()] if start == '{' else [(';',)]  # a block is a complete statement
+            else:
+                bodies = [(start,) + prelude]
+                ends = [(';',)] + [('{',) + b + ('}',) for blen in range(0, maxlen - plen) for b in _balanced_exact(2, blen, WITH_DECOYS)]
+            for body in bodies:
+                inner = body[1:-1] if start in closing else body[1:]
+                if start not in closing and (';' in _top_level(inner) or _top_level_block(inner)):
+                    continue
+                for end in ends:
+                    stmt = body + end
+                    toks = [_tok(v) for v in stmt]
+                    stream = iter(toks[1:] + rest)
+                    got = Evaluator(fn, intrinsics=intr, module=m, cls='Base').run(self=me, tokenizer=stream, starttoken=toks[0])
+                    left = list(stream)
+                    cases += 1
+                    if isinstance(got, Raised) or got != toks or left != rest:
+                        bad.append((' '.join(stmt), repr(got) if isinstance(got, Raised) else f'takes {len(got)} of {len(toks)} tokens'))
+    return start, cases, bad
+
+
 def r04i(chk, rid='R04.i', thorough=False):
-    chk.rule(rid, 'statement skipping, decided by evaluation: Base._tokensupto2 in its default mode (the one every error path and every statement callback uses) is evaluated on every statement made of a start token (a name, a function token or an opening bracket), a balanced run of names, ";" inside brackets, (), [], {} and function tokens, and an end - ";" or a balanced {...} block - followed by the tokens of the next statement: it returns exactly the tokens of the statement and leaves the next statement in the token source; with separateEnd the end token is split off; an EOF token ends it')
+    chk.rule(rid, 'statement skipping, decided by evaluation: Base._tokensupto2 in its default mode (the one every error path and every statement callback uses) is evaluated on every statement made of a start token (a name, a function token or an opening bracket), a balanced run of names, ";" inside brackets, (), [], {}, function tokens and tokens that merely contain a bracket character (an identifier ending in an escaped parenthesis, a string holding a brace), and an end - ";" or a balanced {...} block - followed by the tokens of the next statement: it returns exactly the tokens of the statement and leaves the next statement in the token source; with separateEnd the end token is split off; an EOF token ends it')
     chk.assume('R04.i: tokens are (type, value, line, col) tuples; Base._prods.FUNCTION is the FUNCTION type name; sequences up to a length bound with nesting depth 2 exercise every counter and every order of opening and closing')
+    import multiprocessing as mp
+
     from sa.absint import Evaluator, Raised, Record
 
     m = chk.repo.mod(UTIL)
@@ -501,38 +548,11 @@ def r04i(chk, rid='R04.i', thorough=False):
     intr = {'Base': Record(_prods=Record(FUNCTION='FUNCTION'))}
     maxlen = 5 if thorough else 4
     rest = [_tok('x'), ('CHAR', '{', 1, 1), ('CHAR', '}', 1, 1)]
-    closing = {'(': ')', '[': ']', '{': '}', 'f(': ')'}
-    cases = 0
-    bad = {}
-    for start in ('x', 'f(', '(', '[', '{'):
-        for plen in range(0, maxlen + 1):
-            for prelude in _balanced_exact(2, plen):
-                if start in closing:
-                    # the start token opens a bracket: the statement is that bracket, closed, then the rest of the prelude rules apply
-                    bodies = [(start,) + prelude + (closing[start],)]
-                    if start == '{':
-                        ends = [()]  # a block is a complete statement
-                    else:
-                        ends = [(';',)]
-                else:
-                    bodies = [(start,) + prelude]
-                    ends = [(';',)] + [('{',) + b + ('}',) for blen in range(0, maxlen - plen) for b in _balanced_exact(2, blen)]
-                for body in bodies:
-                    inner = body[1:-1] if start in closing else body[1:]
-                    if start not in closing and (';' in _top_level(inner) or _top_level_block(inner)):
-                        continue
-                    if start == '{' and False:
-                        continue
-                    for end in ends:
-                        stmt = body + end
-                        toks = [_tok(v) for v in stmt]
-                        stream = iter(toks[1:] + rest)
-                        got = Evaluator(fn, intrinsics=intr, module=m, cls='Base').run(self=me, tokenizer=stream, starttoken=toks[0])
-                        left = list(stream)
-                        cases += 1
-                        if isinstance(got, Raised) or got != toks or left != rest:
-                            cls = 'start ' + start
-                            bad.setdefault(cls, []).append((' '.join(stmt), repr(got) if isinstance(got, Raised) else f'takes {len(got)} of {len(toks)} tokens'))
+    starts = ('x', 'f(', '(', '[', '{')
+    with mp.get_context('fork').Pool(len(starts)) as pool:
+        res = pool.map(_r04i_job, [(chk.repo.root, st, maxlen) for st in starts])
+    cases = sum(c for _, c, _ in res)
+    bad = {'start ' + st: b for st, _, b in res}
     if cases < 400:
         raise AnalysisError(f'only {cases} statements enumerated')
     chk.extra['skipped_statements'] = cases
